@@ -646,6 +646,18 @@ where
                 let r = oom(self.get(tok[2])?.restrict(&vars))?;
                 Ok(put(self, tok[1], r))
             }
+            "EVALA" => {
+                // EVALA h <bits>: eval under the assignment given as one character (0 / 1) per variable; any
+                // number of variables (the value tables of EVAL stop at 7)
+                let n = self.nvars() as usize;
+                let a = tok[2].as_bytes();
+                if a.len() != n {
+                    return Err("skip".into());
+                }
+                let f = self.get(tok[1])?;
+                let v = f.eval((0..n).map(|v| (v as VarNo, a[v] == b'1')));
+                Ok(format!("ev {}", v as u8))
+            }
             "EXPORT" => {
                 // EXPORT a|b <handles...> : DDDMP export of the listed handles (shared nodes are visited repeatedly)
                 let ascii = tok[1] == "a";
